@@ -69,6 +69,9 @@ ConcatKcap(ra, rb) ==
   ELSE IF ra.kcap \in {"keys", "items"} /\ rb.kcap \in {"keys", "items"}
   THEN "items" ELSE "none"
 
+\* the API term `desc` (a unary operation without its input) applied to `a`
+WithIn(desc, a) == [x \in (DOMAIN desc) \cup {"in"} |-> IF x = "in" THEN a ELSE desc[x]]
+
 RECURSIVE Ref(_)
 RefSlice(r, form) ==
   LET n == Len(r.el) IN
@@ -262,6 +265,14 @@ Ref(a) ==
              ELSE RefRec([j \in 1..Len(r.el) |-> ElOk("", r.el[j].v)], "none", "none")
         [] a.op = "catch"   -> RefCatch(r, a.E)
         [] a.op = "copy"    -> r
+        \* ds.apply(g, lazy): g(ds); lazy = g is applied (to a frozen copy) before
+        \* every iteration - the same examples, but only iteration / items() are
+        \* offered, and what g must refuse shows when iterating, not when building
+        [] a.op = "apply"   ->
+             LET ra == Ref(WithIn(a.ag, a.in)) IN
+             IF ~a.lazy THEN ra
+             ELSE IF ra.refuse # "none" THEN RefRefuse("undef")
+             ELSE RefRec(ra.el, ra.tail, Weaken(ra.kcap))
         [] a.op = "prefetch" ->
              IF a.cfe = "none" THEN RefRec(r.el, r.tail, Weaken(r.kcap))
              ELSE RefCatch(r, a.cfe)
